@@ -107,6 +107,9 @@ a("//@   ensures n != nil ==> result == n")
 a("//@   ensures tvalid(result, %s) && ndep[result] == d && nwit[result] == key" % G)
 a("//@   ensures forall k K :: { k in nS[result] } k in nS[result] <==> ((n != nil && k in S[n]) || k == key)")
 a("//@   ensures (n != nil ==> nsubset(repr[n], nrepr[result])) && forall x *node :: { x in nrepr[result] } x in nrepr[result] && !(n != nil && x in repr[n]) ==> fresh(x) && x != nil")
+for pn, p in paths.items():
+    a("//@   assert %s ==> (toutside(n, repr, S, term, wit, dep, nrepr, nS, nterm, nwit, ndep))" % p)
+a("//@   assert toutside(n, repr, S, term, wit, dep, nrepr, nS, nterm, nwit, ndep)")
 a("//@   ensures toutside(n, repr, S, term, wit, dep, nrepr, nS, nterm, nwit, ndep)")
 a("//@   ensures forall x *node :: { x.c } old(allocated(x)) ==> x.c == old(x.c)")
 for k in (1, 2, 3):
